@@ -35,6 +35,8 @@ pub enum ErrKind {
     /// compile errors
     CompileEmptyVar,
     CompileBadJump,
+    /// a ForEach / Repeat card whose own loop variable has an empty name
+    CompileBadLoopVar,
 }
 
 #[derive(Clone, Debug, Serialize, Deserialize)]
@@ -233,7 +235,7 @@ fn gen_spec(rng: &mut Rng) -> PathSpec {
     let kind = *rng.pick(&[
         ErrKind::NativeFails, ErrKind::MissingNative, ErrKind::MissingVariable, ErrKind::WrongOperand, ErrKind::NotAFunction,
         ErrKind::OutOfMemory, ErrKind::Timeout, ErrKind::Stackoverflow, ErrKind::CallStackOverflow,
-        ErrKind::CompileEmptyVar, ErrKind::CompileBadJump,
+        ErrKind::CompileEmptyVar, ErrKind::CompileBadJump, ErrKind::CompileBadLoopVar,
     ]);
     let nctx = rng.usize(4);
     let depth = rng.usize(6);
@@ -296,6 +298,18 @@ fn site_expr(kind: ErrKind) -> (Card, CardId) {
             let id = s.id;
             (s, id)
         }
+        ErrKind::CompileBadLoopVar => {
+            // the loop card itself is to blame; its body is a comment, which cannot be
+            let s = c(CardBody::ForEach(Box::new(cao_lang::compiler::ForEach {
+                i: Some("li".into()),
+                k: Some(String::new()),
+                v: Some("lv".into()),
+                iterable: Box::new(c(CardBody::CreateTable)),
+                body: Box::new(c(CardBody::Comment("loop body".into()))),
+            })));
+            let id = s.id;
+            (s, id)
+        }
         ErrKind::CompileEmptyVar => {
             let s = Card::read_var("");
             let id = s.id;
@@ -340,10 +354,31 @@ pub fn build(spec: &PathSpec) -> Built {
         for j in 0..spec.prefix[lvl] {
             // cards in front of the interesting one: some produce code, some (comments, empty
             // composites) produce none
-            f.cards.push(match (lvl + j as usize + (spec.nested >> 8) as usize) % 3 {
+            // ... and loops whose body is a comment: everything they execute is their own
+            // bookkeeping, no error can ever be the body's
+            // (the kinds whose fault is placed by sizing a stack get no loops / calls in front: those
+            // would need more stack than the site and take the fault themselves)
+            let kinds = if matches!(spec.kind, ErrKind::Stackoverflow | ErrKind::CallStackOverflow) { 3 } else { 9 };
+            f.cards.push(match (lvl + j as usize + (spec.nested >> 8) as usize) % kinds {
                 0 => Card::set_var(format!("p{lvl}_{j}"), Card::string_card(format!("prefix {lvl} {j}"))),
                 1 => c(CardBody::Comment(format!("comment {lvl} {j}"))),
-                _ => Card::composite_card("empty", vec![c(CardBody::Comment("inside".into()))]),
+                2 => Card::composite_card("empty", vec![c(CardBody::Comment("inside".into()))]),
+                3 => c(CardBody::ForEach(Box::new(cao_lang::compiler::ForEach {
+                    i: Some(format!("fi{lvl}_{j}")),
+                    k: Some(format!("fk{lvl}_{j}")),
+                    v: Some(format!("fv{lvl}_{j}")),
+                    iterable: Box::new(Card::call_function("onetable", vec![])),
+                    body: Box::new(c(CardBody::Comment("loop body".into()))),
+                }))),
+                4 => c(CardBody::Repeat(Box::new(cao_lang::compiler::Repeat {
+                    i: Some(format!("ri{lvl}_{j}")),
+                    n: Card::scalar_int(2),
+                    body: c(CardBody::Comment("loop body".into())),
+                }))),
+                5 => c(CardBody::While(Box::new([Card::scalar_int(0), c(CardBody::Comment("loop body".into()))]))),
+                6 => c(CardBody::IfTrue(bin(Card::scalar_int(1), c(CardBody::Comment("then".into()))))),
+                7 => c(CardBody::IfFalse(bin(Card::scalar_int(0), c(CardBody::Comment("then".into()))))),
+                _ => c(CardBody::IfElse(Box::new([Card::scalar_int((j % 2) as i64), c(CardBody::Comment("then".into())), c(CardBody::Comment("else".into()))]))),
             });
         }
         if lvl == spec.depth {
@@ -505,7 +540,7 @@ pub fn examine(spec: &PathSpec, ctx: Option<&mut CaseCtx>) -> Vec<(Json, String)
     };
     let slot = *site_loc.1.card_index.indices.last().unwrap_or(&0);
     // ---- compile errors
-    if matches!(spec.kind, ErrKind::CompileEmptyVar | ErrKind::CompileBadJump) {
+    if matches!(spec.kind, ErrKind::CompileEmptyVar | ErrKind::CompileBadJump | ErrKind::CompileBadLoopVar) {
         match compile_module(&b.module) {
             Compiled::Ok(_) => v.push((json!({"inv": "planted-compile-error-accepted", "kind": format!("{:?}", spec.kind)}), "the module with a planted invalid card compiled".into())),
             Compiled::Panic(p) => v.push((json!({"inv": "compile-panic", "site": panic_site(&p)}), format!("compile panicked: {}", p.msg))),
@@ -580,6 +615,12 @@ pub fn examine(spec: &PathSpec, ctx: Option<&mut CaseCtx>) -> Vec<(Json, String)
                             .enumerate()
                             .find(|(i, t)| resolve(&b.module, t).is_none() && !(*i == 0 && is_function_epilogue(&b.module, t)))
                             .map(|(i, t)| format!("trace[{i}] = {t} resolves to no card"))
+                            .or_else(|| {
+                                // a card that produces no code cannot be the one whose instruction failed
+                                resolve(&b.module, &o.trace[0])
+                                    .filter(|c| matches!(c.body, CardBody::Comment(_)))
+                                    .map(|_| format!("trace[0] = {} resolves to a Comment card", o.trace[0]))
+                            })
                     };
                     if let Some(bad) = bad {
                         v.push((
